@@ -714,7 +714,8 @@ Definition add_value_chunks (cs : list bytes) (cnt : N) (k : carrier) (t : ctype
   | (_, Some e) => (cs, cnt, Some (RE_Ser e))
   | (o, None) => (o :: cs, (cnt + 1) mod 65536, None)
   end.
-Definition chunks_bytes (cs : list bytes) : bytes := concat (rev cs).
+(* oldest chunk first; written as a fold so that the extracted code is linear *)
+Definition chunks_bytes (cs : list bytes) : bytes := fold_left (fun acc c => c ++ acc) cs [].
 
 (* ====================================================================================== *)
 (* 8. Specification: which Rust type goes with which CQL type, from the documentation       *)
@@ -899,6 +900,116 @@ Definition is_typeck (e : kerr) : bool :=
        | SE_NotUdt | SE_UdtNameMismatch | SE_NoSuchFieldInUdt) => true
   | _ => false
   end.
+
+(* ---- dynamic values ------------------------------------------------------------------------ *)
+(* "The CqlValue v is a value of the column type t": each variant belongs to the CQL type it is
+   named after (Ascii and Text to both string types; List, Set and Vector to the three sequence
+   types - all are Vec<CqlValue>), Empty to the types that have an empty value, a vector value has
+   exactly `dimensions` elements, a tuple value at most as many components as the type, a UDT value
+   carries the type's keyspace and name and only fields the type has (matched by name, the last
+   entry of a name counts, as in the HashMap of serialize_udt).  No ranges, no ASCII / UTF-8
+   validity: only what a type check can see. *)
+Definition is_cempty := Cql.is_cempty.
+Fixpoint dyn_fits (t : ctype) (v : cval) {struct t} : bool :=
+  match v with
+  | CEmpty => supports_empty t
+  | CList l | CSet l | CVector l =>
+      match t with
+      | TList e | TSet e => forallb (dyn_fits e) l
+      (* a vector has exactly `dim` elements, and an element of a fixed-width type cannot be Empty *)
+      | TVector e dim =>
+          (N.of_nat (List.length l) =? dim) && negb (is_some (type_size e) && existsb is_cempty l) &&
+          forallb (dyn_fits e) l
+      | _ => false
+      end
+  | CMap l =>
+      match t with
+      | TMap k e => forallb (fun kv => dyn_fits k (fst kv) && dyn_fits e (snd kv)) l
+      | _ => false
+      end
+  | CUdt ks nm fields =>
+      match t with
+      | TUdt ks' nm' fts =>
+          bytes_eqb ks ks' && bytes_eqb nm nm' &&
+          (fix go (fts : list (name * ctype)) (st : list (name * option cval)) {struct fts} : bool :=
+             match fts with
+             | [] => is_nil st
+             | (fname, ft) :: r =>
+                 match udt_field_value fname st with
+                 | None => true
+                 | Some x => dyn_fits ft x
+                 end && go r (remove_name fname st)
+             end) fts fields
+      | _ => false
+      end
+  | CTuple l =>
+      match t with
+      | TTuple ts =>
+          (List.length l <=? List.length ts)%nat &&
+          (fix go (ts : list ctype) (l : list (option cval)) {struct ts} : bool :=
+             match ts, l with
+             | et :: ts', ox :: l' =>
+                 match ox with None => true | Some x => dyn_fits et x end && go ts' l'
+             | _, _ => true
+             end) ts l
+      | _ => false
+      end
+  | CAscii _ | CBoolean _ | CBlob _ | CCounter _ | CDecimal _ _ | CDate _ | CDouble _ | CDuration _ _ _
+  | CFloat _ | CInt _ | CBigInt _ | CText _ | CTimestamp _ | CInet _ | CSmallInt _ | CTinyInt _ | CTime _
+  | CTimeuuid _ | CUuid _ | CVarint _ =>
+      match t, payload_kind v with
+      | TNative n, Some m => ntype_eqb n m || (native_in t string_types && native_in (TNative m) string_types)
+      | _, _ => false
+      end
+  end.
+
+(* the known class on the dynamic path (F2b / F2): a CqlValue::Empty directly inside a vector whose
+   elements are packed without length - accepted, the vector comes out short.  Same traversal as
+   [dyn_fits]. *)
+Fixpoint dyn_known (t : ctype) (v : cval) {struct t} : bool :=
+  match v with
+  | CList l | CSet l | CVector l =>
+      match t with
+      | TList e | TSet e => existsb (dyn_known e) l
+      | TVector e _ => (is_some (type_size e) && existsb is_cempty l) || existsb (dyn_known e) l
+      | _ => false
+      end
+  | CMap l =>
+      match t with
+      | TMap k e => existsb (fun kv => dyn_known k (fst kv) || dyn_known e (snd kv)) l
+      | _ => false
+      end
+  | CUdt ks nm fields =>
+      match t with
+      | TUdt ks' nm' fts =>
+          (fix go (fts : list (name * ctype)) (st : list (name * option cval)) {struct fts} : bool :=
+             match fts with
+             | [] => false
+             | (fname, ft) :: r =>
+                 match udt_field_value fname st with
+                 | None => false
+                 | Some x => dyn_known ft x
+                 end || go r (remove_name fname st)
+             end) fts fields
+      | _ => false
+      end
+  | CTuple l =>
+      match t with
+      | TTuple ts =>
+          (fix go (ts : list ctype) (l : list (option cval)) {struct ts} : bool :=
+             match ts, l with
+             | et :: ts', ox :: l' =>
+                 match ox with None => false | Some x => dyn_known et x end || go ts' l'
+             | _, _ => false
+             end) ts l
+      | _ => false
+      end
+  | _ => false
+  end.
+
+(* the errors that a value OF the type can still get: sizes beyond the wire format's i32 *)
+Definition is_size_err (e : kerr) : bool :=
+  match e with KE SE_SizeOverflow | KE SE_TooManyElements => true | _ => false end.
 
 (* ====================================================================================== *)
 (* Boolean forms of the property for the correspondence driver (evaluated on the            *)
